@@ -103,7 +103,14 @@ def check_sync(ctx, case):
     try:
         with warnings.catch_warnings():
             warnings.simplefilter('ignore')
-            sync = must(case, 'Synchronizer(...)', scared.Synchronizer, ths, output, fn, **({'overwrite': True} if case['overwrite'] else {}), scale=scale)
+            late = case.get('set_after_init') or ''
+            sync = must(case, 'Synchronizer(...)', scared.Synchronizer, ths, output, (lambda trace_object, scale: None) if late == 'function' else fn,
+                        **({'overwrite': True} if case['overwrite'] else {}), scale=(scale + 2) if late == 'kwargs' else scale)
+            # the documented attributes `function` and `kwargs` describe what run() applies: they may be set on the object after construction
+            if late == 'function':
+                sync.function = fn
+            elif late == 'kwargs':
+                sync.kwargs['scale'] = scale
             acc = [i for i in range(n) if pattern[i] == 'A']
             if case.get('check_before'):
                 # the documented dry run on randomly picked traces must not influence a later run()
@@ -169,7 +176,7 @@ def check_sync(ctx, case):
              ['n:%s' % ('<=6' if n <= 6 else '>6'), 'all_rejected' if not acc else ('none_rejected' if rej == 0 else 'mixed'),
               'first_rejected' if pattern[0] != 'A' else 'first_accepted', 'last_rejected' if pattern[-1] != 'A' else 'last_accepted',
               'failure_run>=16' if runs >= 16 else 'failure_run>=8' if runs >= 8 else 'failure_run<8', 'path' if case['as_path'] else 'str',
-              'len_differs' if out_len != samples.shape[1] else 'len_same'] + (['check_before_run'] if case.get('check_before') else []) + (['function_reuses_one_output_buffer'] if case.get('reuse_out_buffer') else []) + (['sibling_synchronizer_with_other_kwargs'] if case.get('sibling_kwargs') else []) + (['preexisting_output_file'] if case['preexisting'] else []))
+              'len_differs' if out_len != samples.shape[1] else 'len_same'] + (['check_before_run'] if case.get('check_before') else []) + (['function_reuses_one_output_buffer'] if case.get('reuse_out_buffer') else []) + (['sibling_synchronizer_with_other_kwargs'] if case.get('sibling_kwargs') else []) + (['%s_attribute_set_after_construction' % case['set_after_init']] if case.get('set_after_init') else []) + (['preexisting_output_file'] if case['preexisting'] else []))
 
 
 def replay(ctx, case):
@@ -184,7 +191,7 @@ def _mk(g, pattern, out_len=None):
             'out_len': int(g.integers(1, 9)) if out_len is None else out_len, 'scale': float(g.integers(1, 4)),
             'as_path': bool(g.integers(2)), 'overwrite': bool(g.integers(2)), 'preexisting': int(g.integers(1, 4)) if g.integers(5) == 0 else 0,
             'check_before': int(g.integers(1, 6)) if g.integers(4) == 0 else 0,
-            'reuse_out_buffer': bool(g.integers(3) == 0), 'sibling_kwargs': bool(g.integers(4) == 0)}
+            'reuse_out_buffer': bool(g.integers(3) == 0), 'sibling_kwargs': bool(g.integers(4) == 0), 'set_after_init': ['', '', '', 'kwargs', 'function'][int(g.integers(5))]}
 
 
 def unit_enum(ctx, nmax, shard, nshards):
@@ -221,7 +228,7 @@ def sync_cases(draw):
     return {'kind': 'sync', 'samples': samples, 'plaintext': plaintext, 'pattern': pattern,
             'out_len': draw(st.one_of(st.just(L), st.integers(1, 9))), 'scale': float(draw(st.integers(1, 3))),
             'as_path': draw(st.booleans()), 'overwrite': draw(st.booleans()), 'preexisting': draw(st.sampled_from([0, 0, 0, 1, 2])),
-            'check_before': draw(st.sampled_from([0, 0, 0, 1, 3, 7])), 'reuse_out_buffer': draw(st.booleans()), 'sibling_kwargs': draw(st.sampled_from([False, False, True]))}
+            'check_before': draw(st.sampled_from([0, 0, 0, 1, 3, 7])), 'reuse_out_buffer': draw(st.booleans()), 'sibling_kwargs': draw(st.sampled_from([False, False, True])), 'set_after_init': draw(st.sampled_from(['', '', '', 'kwargs', 'function']))}
 
 
 def unit_generated(ctx, n):
